@@ -1569,6 +1569,11 @@ chkpnta(void)
 				/* reassign */
 				snds = nup;
 				zsnds = nuz;
+				/* the seen tree's nodes have just moved */
+				seen_init(&sntr);
+				for (size_t j = 0U; j < nsnds; j++) {
+					add_seen(&sntr, snds + j);
+				}
 			}
 			snds[nsnds] = (ndnd_t){.key = u, .fd = fd};
 			add_seen(&sntr, snds + nsnds++);
